@@ -276,8 +276,18 @@ F('numpy.diag', 'fresh for 1-D input | view-of(0) for 2-D input', _diag)
 F('numpy.diagonal', 'view-of(0)', view_of(0))
 
 # numpy: fresh results
+def _concat(cx, node, args, kw):
+    e = cx.iter_elem(args[0]) if args else BOT
+    nd = e.ndim if (e.only('arr') or e.only('arr', 'list', 'tuple')) else None
+    if n_is(node, 'vstack') and nd is not None:
+        nd = max(2, nd)
+    if n_is(node, 'stack', 'dstack', 'column_stack', 'block'):
+        nd = None
+    return arr(nd)
+
+
 F('numpy.concatenate numpy.hstack numpy.vstack numpy.stack numpy.dstack numpy.column_stack numpy.block', 'fresh',
-  fresh_arr())
+  _concat)
 def _einsum(cx, node, args, kw):
     nd = None
     if args and args[0].has_const() and isinstance(args[0].const, str):
@@ -293,7 +303,9 @@ def _einsum(cx, node, args, kw):
 
 
 F('numpy.einsum opt_einsum.contract', 'fresh', _einsum)
-F('numpy.kron numpy.outer numpy.tensordot numpy.tile numpy.repeat numpy.cross', 'fresh', fresh_arr())
+F('numpy.kron', 'fresh', lambda cx, n, a, k: arr(max(a[0].ndim, a[1].ndim) if (len(a) == 2 and a[0].ndim is not None and a[1].ndim is not None) else None))
+F('numpy.outer', 'fresh', lambda cx, n, a, k: arr(2))
+F('numpy.tensordot numpy.tile numpy.repeat numpy.cross', 'fresh', fresh_arr())
 
 
 def _matmul(cx, node, args, kw):
@@ -721,7 +733,7 @@ def _draw(cx, node, recv, args, kw):
         if sz is None or sz.const is None:
             r = NUM
         else:
-            r = AV(['arr'])
+            r = AV(['arr'], ndim=shape_ndim(cx, sz))
         if x.objarr or x.may('list'):
             e = cx.iter_elem(x)
             if not e.immutable:
